@@ -744,6 +744,13 @@ func runDispatchWS(c *core.Ctx) {
 		})
 	}
 	if !found {
+		// a hand-written label scanner: skip whitespace, '[', skip whitespace, '"', label up to the next '"'
+		if okScan, detail, at := labelScanner(c, parse); at != token.NoPos {
+			c.CountSites(1)
+			c.Check(okScan, nil, fname(c, parse), "pattern#prefix", P.Pos(at), detail,
+				detail+"; JSON allows insignificant whitespace (space, TAB, LF, CR) before '[' and between '[' and the label, so a valid message written that way is answered 'not a client msg'")
+			return
+		}
 		c.Unknown(nil, fname(c, parse), "pattern#prefix", P.Pos(parse.Pos()), "ParseClientMsg does not dispatch on a constant regexp: idiom not recognised")
 		return
 	}
@@ -1728,4 +1735,115 @@ func accumulatorCheckedEachRound(P *core.Program, ph *ssa.Phi) (string, bool) {
 		}
 	}
 	return "", false
+}
+
+// labelScanner: ParseClientMsg finds its label with a hand-written scanner. Recognised: a private
+// whitespace skipper W (a loop that drops the first byte while it equals one of some constants), applied
+// before the test for '[' and again between that test and the test for '"'. The set of bytes W skips
+// is computed by the interval engine from the loop's own condition and must be exactly JSON's
+// insignificant whitespace {TAB, LF, CR, space}. at == NoPos: no scanner of that form.
+func labelScanner(c *core.Ctx, parse *ssa.Function) (bool, string, token.Pos) {
+	var host *ssa.Function
+	var skipper *ssa.Function
+	var calls2 []*ssa.Call
+	an.Region(parse, nil, func(o an.Occ) {
+		call, ok := o.In.(*ssa.Call)
+		if !ok {
+			return
+		}
+		g := an.StaticCallee(&call.Call)
+		if !an.PrivateHelper(g) || len(g.Params) != 1 || g.Signature.Results().Len() != 1 || !types.Identical(g.Params[0].Type(), g.Signature.Results().At(0).Type()) {
+			return
+		}
+		if _, isSl := g.Params[0].Type().Underlying().(*types.Slice); !isSl {
+			if bt, isB := g.Params[0].Type().Underlying().(*types.Basic); !isB || bt.Kind() != types.String {
+				return
+			}
+		}
+		if !an.InLoop(g.Blocks[len(g.Blocks)-1]) && len(g.Blocks) < 3 {
+			return
+		}
+		if skipper != nil && skipper != g {
+			return
+		}
+		skipper, host = g, call.Parent()
+		calls2 = append(calls2, call)
+	})
+	if skipper == nil || len(calls2) < 2 {
+		return false, "", token.NoPos
+	}
+	// the byte tests of the host: '[' and '"'
+	var cmpBr, cmpQ *ssa.BinOp
+	an.Instrs(host, func(in ssa.Instruction) {
+		b, ok := in.(*ssa.BinOp)
+		if !ok || (b.Op != token.EQL && b.Op != token.NEQ) {
+			return
+		}
+		if k, isK := an.ConstInt(b.Y); isK {
+			if k == '[' && cmpBr == nil {
+				cmpBr = b
+			}
+			if k == '"' && cmpQ == nil {
+				cmpQ = b
+			}
+		}
+	})
+	if cmpBr == nil || cmpQ == nil {
+		return false, "", token.NoPos
+	}
+	var w1, w2 *ssa.Call
+	for _, cl := range calls2 {
+		if cl.Parent() != host {
+			continue
+		}
+		if an.InstrDominates(cl, cmpBr) {
+			w1 = cl
+		}
+		if an.InstrDominates(cmpBr, cl) && an.InstrDominates(cl, cmpQ) {
+			w2 = cl
+		}
+	}
+	// the set of bytes the skipper drops: the values of its first byte on the edge that goes round the loop
+	var subj ssa.Value
+	an.Instrs(skipper, func(in ssa.Instruction) {
+		if u, ok := in.(*ssa.UnOp); ok && u.Op == token.MUL {
+			if ia, ok := u.X.(*ssa.IndexAddr); ok {
+				if k, isK := an.ConstInt(ia.Index); isK && k == 0 && subj == nil {
+					subj = u
+				}
+			}
+		}
+		if ix, ok := in.(*ssa.Index); ok && subj == nil {
+			if k, isK := an.ConstInt(ix.Index); isK && k == 0 {
+				subj = ix
+			}
+		}
+	})
+	skipped := an.Empty()
+	if subj != nil {
+		sp := an.PathOf(subj)
+		fr := an.Frame{
+			IsSubject: func(v ssa.Value) bool { return an.PathOf(v) == sp },
+			Term:      func(v ssa.Value) (int64, bool) { return an.ConstInt(v) },
+			Domain:    an.Range(0, 255),
+		}
+		// the latch: the block that re-slices (drops the byte) and returns to the header
+		for _, b := range skipper.Blocks {
+			for _, in := range b.Instrs {
+				if sl, ok := in.(*ssa.Slice); ok && an.InLoop(b) {
+					if k, isK := an.ConstInt(sl.Low); isK && k == 1 {
+						set, n, okS := fr.ReachSet(skipper, b, nil, nil)
+						c.CountPaths(n)
+						if okS {
+							skipped = skipped.Union(set)
+						}
+					}
+				}
+			}
+		}
+	}
+	want := an.Range(9, 10).Union(an.Range(13, 13)).Union(an.Range(32, 32))
+	before, after := w1 != nil, w2 != nil
+	detail := fmt.Sprintf("label scanner: whitespace skipped before '[': %v, after '[': %v; %s skips bytes ∈ %s (JSON whitespace is %s)", before, after, skipper.Name(), skipped.String(), want.String())
+	return before && after && skipped.Equal(want), detail, skipper.Pos()
 }
